@@ -425,7 +425,7 @@ def tie(ctx):
                     samples.append({"structure": d["structure"], "planted": d["planted"], "major": sorted(sa.major for sa in call["major_sol"].solution.elements()),
                                     "result": [(a.minor, [str(m) for m in a.added], [str(m) for m in a.missing]) for a in sol.solution], "score": sol.score})
     return {"families": fam, "violations": violations[:6], "evaluations": len(descs), "distinct_nontrivial": len(distinct),
-            "rule": "evidence tables planted from 1-3 catalogued (major, minor) alleles of toy / generated / shipped genes with multiplicative noise, spurious and dropped variants, optional per-fragment phase evidence, penalties varied; every solve_minor_model call of the real estimate_minor is one case; distinct by hash of the instance",
+            "rule": "evidence tables planted from 1-3 catalogued (major, minor) alleles of toy / generated (half of them with a deletion-insertion variant) / shipped genes with multiplicative noise, spurious and dropped variants, optional per-fragment phase evidence, penalties varied; every solve_minor_model call of the real estimate_minor is one case; distinct by hash of the instance",
             "samples": samples, "stats": dict(stats) | {"constraint_families_hit": dict(famhit)}}
 
 
